@@ -59,6 +59,8 @@ class Ctx:
         (infrastructure: the spec is my artefact, frigg is not accused by it).
         expect_violation: negative control - TLC must report this invariant/property violated."""
         sd = os.path.join(VERIF, "spec", spec_dir)
+        if not self.quick and expect_violation is None:
+            kw.setdefault("coverage", True)       # thorough tier: per-action counts go into the evidence (vacuity guard)
         r = T.run(sd, module, cfg, **kw)
         rec = {"module": module, "cfg": cfg, **r.summary()}
         if r.coverage:
